@@ -19,7 +19,7 @@ import subprocess
 import multiprocessing as mp
 
 VERIF = os.path.dirname(os.path.dirname(os.path.abspath(__file__)))
-REPO = '/repo'
+REPO = os.environ.get('VERIF_REPO', '/repo')   # registered commands always use /repo; discovery runs may point to a snapshot
 MAX_REPORT_PER_KIND = 20
 
 
